@@ -177,6 +177,15 @@ def setField (field : String) (sys : Sys) (v : Scalar) : Res UVal :=
   | none => .error .notImplemented
   | some d => processScalar sys d v
 
+/-- a text element of a list handed to `UnitArray.set_value` (e.g. `t_sample=[0, "5 s"]`): `np.array(list)` turns
+every item into `np.str_`, which the `type(item) == str` test does not recognise, so the text is never parsed as a
+quantity; it finally goes through `float()`, which accepts it iff nothing follows the number.  When the source keeps
+the items' types (`arrayTextItemsParsed`), the text is parsed and its dimension checked like any other quantity. -/
+def arrayTextElement (field : String) (sys : Sys) (v : Rat) (unitsText : String) : Res Unit :=
+  if arrayTextItemsParsed then
+    (match setField field sys (.text v unitsText) with | .ok _ => .ok () | .error e => .error e)
+  else if (stripBlank unitsText.toList).isEmpty then .ok () else .error .badSyntax
+
 /-! ### Coarse-graining index maps (`check_index_map_validity`) -/
 
 def listMax : List Int → Int
